@@ -8,7 +8,6 @@ import (
 	"runtime"
 	"strconv"
 	"strings"
-	"unicode"
 
 	"github.com/robfig/soy/ast"
 	"github.com/robfig/soy/data"
@@ -1346,7 +1345,9 @@ func isOneOf(tocheck itemType, against []itemType) bool {
 
 func allSpace(str string) bool {
 	for _, ch := range str {
-		if !unicode.IsSpace(ch) {
+		// the four characters raw text treats as whitespace: anything else
+		// between {switch} and {case} (a no-break space, a form feed) is content
+		if !isSpaceEOL(ch) {
 			return false
 		}
 	}
